@@ -622,6 +622,15 @@ def memory_soak(R):
                     w.set_responder(agent.handle)
             elif i % 5 == 3:
                 drive_agen(w.client.walk(OID((1, 3, 6, 1, 2, 1, 1))), limit=50)
+            elif i % 5 == 2:
+                # the device refuses (the SAME error for the SAME object, poll after poll)
+                agent.pdu_hook = lambda req, resp: dict(resp, error_status=17, error_index=1, varbinds=list(req["varbinds"]))
+                try:
+                    drive(w.client.set(OID(K[0]), rig.from_tuple(("int", 1))))
+                except Exception as exc:  # noqa: BLE001
+                    one.last_error = exc  # a caller may well keep the last error around
+                finally:
+                    agent.pdu_hook = None
             else:
                 drive(w.client.multiget([OID(k) for k in K[: 1 + i % 4]]))
 
@@ -643,6 +652,79 @@ def memory_soak(R):
                         "memory attributed to the library grew by %d bytes over %d exchanges on one client (%.0f bytes per exchange)" % (grown, n, grown / n), None)
         else:
             R.mon["soak_levels_flat"] += 1
+
+
+def through_the_udp_sender(R):
+    """Datagrams at the edge of "a byte string" - zero octets, one octet, a lone header -
+    delivered through the library's OWN UDP sender (no sender= seam) on the virtual-time
+    loop: the call ends, with a result or an exception, after at most `retries` datagrams,
+    and the client works for the next request."""
+    import asyncio
+
+    from puresnmp import Client
+    from puresnmp.credentials import V2C
+
+    from .. import vloop
+
+    good_db = {K[0]: DB[K[0]]}
+    from .. import agent as agent_mod
+
+    agent = agent_mod.Agent(good_db, community=b"public")
+    replies = [b"", b"\x00", b"\x30", b"\x30\x00", b"\x02\x01", b"\x30\x80", b"\x30\x84", b"\xff" * 3, b"\x30\x03\x02\x01\x01"]
+    for junk in replies:
+        for retries in (1, 3):
+            state = {"sent": 0, "junk_until": 40}
+
+            def factory(index, junk=junk, state=state):
+                def script(transport, data):
+                    state["sent"] += 1
+                    if state["sent"] <= state["junk_until"]:
+                        transport.loop.call_later(0.2, transport.deliver, junk, ("192.0.2.1", 161))
+                    else:
+                        good = agent.handle(data)
+                        if good is not None:
+                            transport.loop.call_later(0.2, transport.deliver, good, ("192.0.2.1", 161))
+
+                return script
+
+            loop = vloop.VLoop(factory)
+            loop.set_exception_handler(lambda l, ctx: None)
+            out = {}
+
+            async def main():
+                client = Client("192.0.2.1", V2C("public"))
+                client.configure(timeout=1, retries=retries)
+                try:
+                    out["first"] = ("ok", await client.get(OID(K[0])))
+                except Exception as exc:  # noqa: BLE001
+                    out["first"] = ("exc", exc)
+                out["sent_first"] = state["sent"]
+                state["junk_until"] = 0  # from now on the device answers properly
+                try:
+                    out["next"] = ("ok", rig.to_tuple(await client.get(OID(K[0]))))
+                except Exception as exc:  # noqa: BLE001
+                    out["next"] = ("exc", exc)
+
+            try:
+                loop.run_until_complete(main())
+            except vloop.Deadlock:
+                out.setdefault("first", ("deadlock", None))
+            finally:
+                try:
+                    loop.close()
+                except Exception:  # noqa: BLE001
+                    pass
+            R.evaluations += 1
+            R.fingerprints.add("udp-sender/%s/%d" % (junk.hex(), retries))
+            case = {"level": "v2c", "mode": "udp-sender", "fault": "reply %s through send_udp, retries=%d" % (junk.hex() or "(empty)", retries), "pos": 0, "variant": "udp-sender", "datagram": "hex:" + junk.hex(), "len": len(junk)}
+            sent = out.get("sent_first", state["sent"])
+            if out.get("first", ("deadlock",))[0] == "deadlock" or sent > retries:
+                R.violation(case, "a %d-octet reply (%s) through the UDP sender: %d datagrams sent with retries=%d, outcome %r" % (len(junk), junk.hex(), sent, retries, out.get("first")), None)
+                return
+            if out.get("next") != ("ok", DB[K[0]]):
+                R.violation(case, "after a %d-octet reply (%s) the next request on the client gave %r" % (len(junk), junk.hex(), out.get("next")), None)
+                return
+            R.mon["edge_datagrams_through_the_udp_sender"] += 1
 
 
 def latched_agents(R):
@@ -703,6 +785,8 @@ def run(R):
         latched_agents(R)
     if R.shard == 2 % R.nshards:
         memory_soak(R)
+    if R.shard == 3 % R.nshards:
+        through_the_udp_sender(R)
     rng = R.rng("bombs")
     streams = []
     targets = []
@@ -796,6 +880,9 @@ def replay(R, v):
     if c.get("mode") == "latched-engine":
         if calibrate(R):
             latched_agents(R)
+        return
+    if c.get("mode") == "udp-sender":
+        through_the_udp_sender(R)
         return
     calibrate(R)
     t = TrapTarget() if c["mode"] == "trap" else Target(c["level"], c["mode"])
